@@ -86,7 +86,9 @@ fn check_subset(ctx: &mut Ctx, node: &Common, dropped: &[bool], label: &str) -> 
                         format!("{} session, packet #{}: a non-media packet (type {}) is marked droppable", node.name, i, m.type_id),
                     ));
                 }
-                if !type_ids.is_empty() && !type_ids.contains(&m.type_id) {
+                // protocol control messages may accompany any call (their own rule is "on message
+                // stream 0", checked above); the expectation is about commands, data and media
+                if !type_ids.is_empty() && !matches!(m.type_id, 1..=6) && !type_ids.contains(&m.type_id) {
                     return Err(Violation::new(
                         format!("{}/transcript/unexpected-message-type", prop),
                         format!("{} session, packet #{} (call {}): message type {} where the call should produce one of {:?}", node.name, i, p.call_no, m.type_id, type_ids),
